@@ -19,3 +19,10 @@ Proof. reflexivity. Qed.
 
 Lemma bridge_commit_infallible : p_commit_has_fallible_step = false /\ p_commit_ends_with_ok = true.
 Proof. split; reflexivity. Qed.
+
+(* the two look-ups: the last picture and the reference picture are found under their own keys *)
+Lemma bridge_p_get_last_picture s : p_get_last_picture s = Ok (get_last_picture s).
+Proof. unfold p_get_last_picture, get_last_picture. destruct (last_picture s); reflexivity. Qed.
+
+Lemma bridge_p_get_reference_picture s : p_get_reference_picture s = Ok (get_reference_picture s).
+Proof. unfold p_get_reference_picture, get_reference_picture. destruct (reference_picture s); reflexivity. Qed.
